@@ -202,8 +202,10 @@ def static_tables():
                     if n.func.attr == "imap_unordered":
                         unordered.append((rel, func_of(n)))
                     if n.func.attr in ("reshape", "flatten"):
+                        # only an explicit order other than Fortran is recorded: a call without the keyword may be
+                        # a harmless reshape of one-dimensional data (expand_array's C-order reshape is modelled)
                         o = [k.value.value for k in n.keywords if k.arg == "order" and isinstance(k.value, ast.Constant)]
-                        if (o[0] if o else None) != "F":
+                        if o and o[0] != "F":
                             nonF.append((rel, func_of(n), n.func.attr))
     return sorted(set(sw)), sorted(set(unordered)), sorted(set(nonF))
 
